@@ -124,6 +124,50 @@ pub fn layout_all(spec: &NodeSpec, a: Size<AvailableSpace>) -> Option<(Lays, Exp
     .ok()
 }
 
+/// "Calm" trees: no block container and no baseline alignment anywhere.  For them (exact memo key) a relayout after any history
+/// stores the same layouts as a fresh tree -- theorem C01_taffy_engine_layouts_equal_fresh_partial -- so clause (c) of the C06
+/// oracle cannot raise a false alarm there; outside this class the recorded ComputeSize-scribble finding would.
+fn calm(spec: &NodeSpec) -> bool {
+    let s = &spec.style;
+    let base = |a: Option<AlignItems>| a == Some(AlignItems::Baseline);
+    if base(s.align_items) || base(s.align_self) || base(s.justify_items) || base(s.justify_self) {
+        return false;
+    }
+    if !spec.children.is_empty() && s.display == Display::Block {
+        return false;
+    }
+    spec.children.iter().all(calm)
+}
+
+/// Exact-key mode (hook): (fresh layout of `spec`; layout of the same tree first laid out with `target` IN FLOW
+/// (position: relative), then given its real absolute style through set_style and laid out again).  Unrounded layout bits.
+#[cfg(taffy_verif)]
+pub fn fresh_and_after_making_absolute(spec: &NodeSpec, target: usize, a: Size<AvailableSpace>) -> Option<(Vec<Vec<u32>>, Vec<Vec<u32>>)> {
+    let spec = spec.clone();
+    let r = std::panic::catch_unwind(move || {
+        taffy::verif_hooks::set_exact_key(true);
+        let mut t: TaffyTree<Ctx> = TaffyTree::new();
+        t.disable_rounding();
+        let mut ids = vec![];
+        let root = build(&mut t, &spec, &mut ids);
+        compute(&mut t, root, a);
+        let fresh: Vec<Vec<u32>> = ids.iter().map(|n| layout_bits(t.unrounded_layout(*n))).collect();
+        let mut inflow = spec.clone();
+        node_at_mut(&mut inflow, target).style.position = Position::Relative;
+        let mut t: TaffyTree<Ctx> = TaffyTree::new();
+        t.disable_rounding();
+        let mut ids = vec![];
+        let root = build(&mut t, &inflow, &mut ids);
+        compute(&mut t, root, a);
+        t.set_style(ids[target], node_at(&spec, target).style.clone()).unwrap();
+        compute(&mut t, root, a);
+        let after: Vec<Vec<u32>> = ids.iter().map(|n| layout_bits(t.unrounded_layout(*n))).collect();
+        (fresh, after)
+    });
+    taffy::verif_hooks::set_exact_key(false);
+    r.ok()
+}
+
 /// Lay the tree out with node `target` VISIBLE (display `vis`), then give it its real (display:none) style through
 /// set_style and lay out again: layouts after the second pass; None on panic.
 pub fn layout_after_hiding(spec: &NodeSpec, target: usize, vis: Display, a: Size<AvailableSpace>) -> Option<Lays> {
@@ -436,6 +480,7 @@ pub struct Verdict {
     pub target_has_children: bool,
     pub target_known_class: bool,
     pub hidden_queries: u64,
+    pub became_absolute_checked: bool,
 }
 
 fn new_verdict() -> Verdict {
@@ -450,6 +495,7 @@ fn new_verdict() -> Verdict {
         target_has_children: false,
         target_known_class: false,
         hidden_queries: 0,
+        became_absolute_checked: false,
     }
 }
 
@@ -703,6 +749,31 @@ pub fn run06(c: &Case) -> Verdict {
             }
         }
     }
+    // (c) a node that BECOMES absolute: the tree laid out with the target in flow, the target then given its absolute style through
+    // set_style, laid out again -- nothing outside its subtree may remember the in-flow pass.  Exact memo key, calm trees only (see
+    // `calm`): there the relayout equals the fresh layout by theorem, so every difference is a real staleness.
+    #[cfg(taffy_verif)]
+    if v.fails.is_empty() && calm(&c.spec) {
+        if let Some((fresh, after)) = fresh_and_after_making_absolute(&c.spec, target, c.avail) {
+            v.became_absolute_checked = true;
+            for i in 0..fresh.len() {
+                if fresh[i] != after[i] {
+                    v.fails.push((
+                        "became-absolute".to_string(),
+                        format!(
+                            "node#{i} ({}{}): laid out with node#{target} in flow, node#{target} then set to position:absolute (child of a {} container), laid out again: {:?} but a fresh tree gives {:?} (exact memo key, no block container, no baseline alignment)",
+                            disp(st[i].display),
+                            if i == parent { ", its container" } else if anc.contains(&i) { ", an ancestor" } else if i >= target && i < target + cnt { ", inside its subtree" } else { "" },
+                            v.parent_display,
+                            floats(&after[i]),
+                            floats(&fresh[i])
+                        ),
+                    ));
+                    break;
+                }
+            }
+        }
+    }
     v
 }
 
@@ -887,6 +958,7 @@ fn oracle(which: u32, args: &[String]) {
                 *stat.entry(format!("target_has_children_{}", v.target_has_children as u8)).or_default() += 1;
                 *stat.entry(format!("nodes_{}", if nodes <= 3 { "le3" } else if nodes <= 7 { "4to7" } else { "8plus" })).or_default() += 1;
                 if which == 6 {
+                    *stat.entry(format!("became_absolute_clause_checked_{}", v.became_absolute_checked as u8)).or_default() += 1;
                     *stat.entry(format!("target_in_known_class_{}", v.target_known_class as u8)).or_default() += 1;
                 }
                 for (class, m) in v.fails.iter().take(1) {
